@@ -13,7 +13,7 @@ add("C02", "exploration", "property-based fuzzing of the parser (rapid: random s
     "Trusted base: the certificate walk in harness/c02_test.go and the reference builder used to seed mutants. Exploration only: absence of panics is shown for the inputs generated (counts in evidence), plus a complete enumeration of short structured packets over a boundary alphabet.",
     "DESIGN.md 4/C02")
 add("C03", "exploration", "property-based differential testing against an independent RFC 3550/8285 builder/parser (rapid), re-encode stability as a metamorphic relation on all accepted mutants",
-    "Images laid out by a reference builder in every way the RFCs allow must decode to the values they were built from; every accepted input must re-encode stably (byte-identical when canonical); the standalone HeaderExtension views must read and re-serialise the same block. One known finding (id-15 payload offset, pinned by an existing unit test) is excluded by its exact signature and counted.",
+    "Images laid out by a reference builder in every way the RFCs allow must decode to the values they were built from, into a fresh receiver and into one that decoded another packet first; every accepted input must re-encode stably (byte-identical when canonical); the standalone HeaderExtension views must read and re-serialise the same block. One known finding (id-15 payload offset, pinned by an existing unit test) is excluded by its exact signature and counted.",
     "Trusted base: harness/ref/rtpwire (my reading of the RFCs; two-byte profile = 0x1000 exactly as the library documents). Accept-set questions outside well-formed images are not asserted.",
     "DESIGN.md 4/C03")
 add("C04", "exploration", "property-based testing (rapid) of MarshalTo against Marshal over generated packets x destination lengths x dirty buffers",
